@@ -171,4 +171,7 @@ def run(ctx):
                         'with recording disabled the operation decorator must be a pure pass-through: it must neither touch the cassette nor '
                         'evaluate the call\'s arguments (a call without positional arguments would fail in the decorator instead of running)',
                         witness=dom.path_to(n, s), entry=cl.qualname, exit=rm.exit_kind(n)))
+    # ---- C04.i the user's own post-operation callback runs with the recording detached: a fault of the recorder inside it (a discard
+    # triggered by a call the callback makes) cannot hit the recording that is being finished and surface in the operation
+    rm.extractor_runs_idle_clause(ctx, res, 'C04', 'C04.i')
     return res
